@@ -1,6 +1,6 @@
 (* Alloc/Proofs.v — invariant and lemmas of the page-allocation model (C24). *)
 From Salsa Require Import Base.
-From Salsa.Alloc Require Import PageK Model.
+From Salsa.Alloc Require Import Model.
 
 (* ---------- generic list lemmas ---------- *)
 
